@@ -875,6 +875,51 @@ Proof.
     intros df' Hin'. destruct (S2 n df' Hin') as (ct' & Hl'' & ->). rewrite Hl in Hl''. inversion Hl''; subst. reflexivity.
 Qed.
 
+(* ---- the ignore mark over reset-dep.  [mark_held]: the task carries the mark in a record written by the configured
+   checker, or in a record without a checker entry (one that holds only the mark).  Such a task carries the mark after
+   the command, whatever the command did with it (not selected / failed / skip / processed) and whichever other tasks
+   it went through -- and its record is still of that kind, so the same holds over any number of applications.
+   (A record written by ANOTHER checker is dropped as a whole when the task is processed: reset_dep_spec.) ---- *)
+Definition mark_held (c : ck) (d : db) (T : name) : Prop :=
+  status_is_ignore d T = true /\ ck_changed c (getrec d T) = false.
+
+Lemma reset_dep_keeps_mark c fs sn d n df d' code T :
+  db_ok fs sn d -> reset_dep md5 v c fs d n df = (d', code) -> mark_held c d T -> mark_held c d' T /\ code <> 98.
+Proof.
+  intros Hok H [Hi Hc].
+  destruct (reset_dep_spec c fs sn d n df d' code Hok H) as (_ & Hfr & _ & Hcase).
+  destruct (forallb (exists_ fs) (file_dep df)).
+  - destruct Hcase as (Hcode & H1 & H2 & _).
+    destruct Hcode as [->| ->].
+    + rewrite (H1 eq_refl). split; [split; auto | discriminate].
+    + split; [|discriminate]. destruct (N.eq_dec T n) as [->|Hne].
+      * destruct (H2 eq_refl) as (r' & Hr' & _ & Hck & _ & Hig).
+        unfold mark_held, status_is_ignore, getrec in *. rewrite Hr', Hig, Hc. split; [exact Hi|].
+        unfold ck_changed. rewrite Hck, ck_eqb_refl. reflexivity.
+      * unfold mark_held, status_is_ignore, getrec in *. rewrite (Hfr T Hne). auto.
+  - destruct Hcase as [-> ->]. split; [split; auto | discriminate].
+Qed.
+
+Lemma resetdep_loop_keeps_mark c fs sn T : forall l d log,
+  db_ok fs sn d -> mark_held c d T -> mark_held c (co_db (resetdep_loop md5 v c fs l d log)) T.
+Proof.
+  induction l as [|[m dfm] l IH]; intros d log Hok Hm; simpl; [exact Hm|].
+  destruct (reset_dep md5 v c fs d m dfm) as [d1 code] eqn:Er.
+  destruct (reset_dep_keeps_mark c fs sn d m dfm d1 code T Hok Er Hm) as [Hm1 Hcode].
+  destruct (reset_dep_spec c fs sn d m dfm d1 code Hok Er) as (Hok1 & _).
+  destruct (code =? 98) eqn:E; [apply Z.eqb_eq in E; contradiction|].
+  apply IH; auto.
+Qed.
+
+Lemma resetdep_cmd_keeps_mark c fs sn tb args d T :
+  db_ok fs sn d -> mark_held c d T -> mark_held c (co_db (resetdep_cmd md5 v c fs tb args d)) T.
+Proof.
+  intros Hok Hm. unfold resetdep_cmd.
+  destruct (match args with [] => None | _ :: _ => first_unknown tb args end); [exact Hm|].
+  destruct (resetdep_tasks tb args) as [l|]; [|exact Hm].
+  apply (resetdep_loop_keeps_mark c fs sn T); auto.
+Qed.
+
 Lemma resetdep_outcome c fs tb args d :
   let out := resetdep_cmd md5 v c fs tb args d in
   match (match args with [] => None | _ => first_unknown tb args end) with
